@@ -30,7 +30,7 @@ var r *report.Run
 
 // Case is the replayable address of one executed case.
 type Case struct {
-	Phase string `json:"phase"` // partset | mutation | headerhash | roundtrip | txroot
+	Phase string `json:"phase"` // partset | relabel | mutation | headerhash | roundtrip | txroot
 
 	// partset
 	Config  string   `json:"config,omitempty"`
@@ -139,6 +139,8 @@ func rerun(c Case) []obs {
 		return rerunHeaderHash(c)
 	case "roundtrip":
 		return rerunRoundTrip(c)
+	case "relabel":
+		return rerunRelabel(c)
 	case "txroot":
 		return rerunTxRoot(c)
 	}
@@ -229,6 +231,7 @@ func main() {
 		warmCaches()
 	})
 	phase("partsets", runPartSets)
+	phase("relabel", runRelabel)
 	phase("headerhash", runHeaderHash)
 	phase("txroot_reference", runTxRootReference)
 	phase("mutations", runMutations)
@@ -240,6 +243,10 @@ func main() {
 		"distinct and repeated part contents, and for headers announcing 0 parts; state key = bytes held by every slot + count + bit array; every token of the adversarial alphabet "+
 		"(genuine, genuine after a wire round trip, relabelled index, changed proof index, both, parts / bytes of another set, truncated / extended / empty bytes with the genuine or a recomputed leaf hash, "+
 		"wrong proof total, proof of another leaf, tampered aunts / leaf hash, index >= total, inner node offered as a leaf) is offered in every reachable state (so all orders and duplicates are covered). "+
+		"(a') E3 relabelling stage: every part count n in 1..17 (thorough ..33) cut from the wire form of a real block, every genuine part j, every claimed part index i in 0..n, proof index in {i, j}, proof total in 1..n+1, aunts exact / shortened / extended by one, "+
+		"offered to a fresh set and followed by the genuine part of that slot and all the others (bogus first, then genuine): AddPart must accept the exact genuine labelling, must reject every part whose bytes do not belong in slot i "+
+		"(in an unbalanced tree the path of leaf j is also the path of another index in a smaller tree, so SimpleProof.Verify alone accepts such relabellings — listed as information), and a complete set must yield the block's bytes; "+
+		"expected verdicts and roots come from an independent reference tree; the relabellings that keep the path valid are also tokens of the state graphs of (a). "+
 		"(b) E3: every single-field mutation (each header field over its boundary alternatives, tx add / remove / duplicate / swap / replace / every byte altered, commit height / round / id / every flag / address / "+
 		"timestamp / every signature byte / list edits, every evidence field and list edit) of every block of the family {height 1, height 2} x {0,1,3 txs} x {0,1,2 evidence} x {full, absent, nil-vote commit}, "+
 		"applied to the wire form, decoded with BlockFromProto and validated with BlockExecutor.ValidateBlock on a fresh executor and on one that validated the original "+
